@@ -1008,6 +1008,26 @@ def generate(rng, tier):
         # more than 312 canonical draws: the state is regenerated (_M_gen_rand) inside the case
         cs.append(as_g(seq_case(sd, [f"poissonv 40 " + " ".join([hx(7.5)] * 40)], 0, ()), 700, ("seqg", "twist")))
         cs.append(as_g(seq_case(sd, [f"uniform {hx(0.0)} {hx(1.0)}"] * 3, 0, ()), 3, ("seqg", "first-draws")))
+    # N. (follow-up to pass 7) domains that are NARROW relative to their distance from the origin: offsets +-1e2 .. 1e8, width / |offset| on the ladder
+    #    1e-12 .. 1e-2, curved CDFs (power, exponential, erf, tanh on the window) with the deviate prescribed between the end values; the same domains
+    #    for Rejection_Sampling and Sample_Metropolis.  An accuracy or a step taken relative to |x| instead of the width shows up here.
+    for _ in range(R(120, 1500)):
+        X = sgn() * 10 ** rng.uniform(2, 8); rel = 10.0 ** -rng.randint(2, 12); w_ = abs(X) * rel
+        a = X; b = X + w_; w_ = b - a
+        if not (w_ > 0): continue
+        r_ = rng.random()
+        if r_ < 0.75:
+            fam = [f for f in cdf_family(a, b)[1:] if not f[0].startswith("pow") or tokf(f[0].split()[-1]) >= 1.0]
+            fx, F = rng.choice(fam); e_ = fparse(fx.split(), 0)[0]; Fa, Fb = feval(e_, a), feval(e_, b)
+            if not (Fb - Fa > 1e-3): continue
+            u = Fa + (Fb - Fa) * rng.uniform(0.02, 0.98)
+            if rng.random() < 0.1: a, b = b, a
+            cs.append(seq_case(rng.randrange(2 ** 32), [f"invt {hx(a)} {hx(b)} {fx}"], 3, ("invt", "narrow-far", f"rel1e-{round(-math.log10(rel))}"), state_raws=list(raws_for(u))))
+        elif r_ < 0.88:
+            cs.append(seq_case(seed(), [f"rej {hx(a)} {hx(b)} {hx(2.0)} {rng.choice(dens_family(a, b))}"], 400, ("rej", "narrow-far")))
+        else:
+            s_, th, b_ = triple(30)
+            cs.append(seq_case(seed(), [f"metro {hx(w_ * rng.choice([0.1, 0.5, 2.0]))} {s_} {th} {b_} {flist([a, b])} {rng.choice(dens_family(a, b))}"], 1 + 2 * imax32(s_, th, b_) + 1, ("metro", "narrow-far")))
     return cs
 
 
@@ -1200,6 +1220,44 @@ def knuth_exact(us, lam):
     return Q <= 1
 
 
+def slope_bound(e, lo, hi):
+    """(range lo, range hi, Lipschitz bound) of the function expression e of x on [lo, hi], by the chain / product rules on enclosures; None
+    where the rules below do not apply.  A PRIORI bound of |cdf'|: used to turn the accuracy Find_Root is asked for into a bound on |cdf(x) - xi|."""
+    o = e[0]
+    if o == "x": return lo, hi, 1.0
+    if o == "c": return e[1], e[1], 0.0
+    if o in ("y", "z", "v"): return None
+    if o in "+-*/" and len(o) == 1:
+        A = slope_bound(e[1], lo, hi); B = slope_bound(e[2], lo, hi)
+        if A is None or B is None: return None
+        (al, ah, La), (bl, bh, Lb) = A, B
+        if o == "+": return al + bl, ah + bh, La + Lb
+        if o == "-": return al - bh, ah - bl, La + Lb
+        if o == "*":
+            ps = [al * bl, al * bh, ah * bl, ah * bh]
+            return min(ps), max(ps), max(abs(al), abs(ah)) * Lb + max(abs(bl), abs(bh)) * La
+        if Lb != 0.0 or bl != bh or bl == 0.0: return None          # division by a constant only
+        qs = [al / bl, ah / bl]; return min(qs), max(qs), La / abs(bl)
+    A = slope_bound(e[1], lo, hi)
+    if A is None: return None
+    al, ah, La = A
+    pad = 1e-9 * max(abs(al), abs(ah), 1e-300)                       # the enclosures are computed in doubles
+    al -= pad; ah += pad
+    if o == "neg": return -ah, -al, La
+    if o == "exp":
+        if ah > 700: return None
+        return math.exp(al), math.exp(ah), math.exp(ah) * La
+    if o == "erf": return math.erf(al), math.erf(ah), 2.0 / math.sqrt(math.pi) * La
+    if o == "tanh": return math.tanh(al), math.tanh(ah), La
+    if o in ("sin", "cos"): return -1.0, 1.0, La
+    if o == "atan": return math.atan(al), math.atan(ah), La
+    if o == "pow":
+        p = e[2]
+        if p < 1.0 or ah < 0.0: return None
+        al = max(al, 0.0); return al ** p, ah ** p, p * ah ** (p - 1.0) * La
+    return None
+
+
 def replay_seq(us, ops, v, vs=None):
     """Independent replay of a sequence on the uniforms of the case: returns (violations, consumed or None, expects_exit).
     v: the implementation's output values (None when it exited).  With vs (the uniforms of the second generator) calls marked
@@ -1277,8 +1335,19 @@ def replay_seq(us, ops, v, vs=None):
             x = r[0]
             if not (lo <= x <= hi): out.append(("invt:range", f"Inverse_Transform_Sampling returned {x!r} outside [{lo},{hi}]"))
             else:
-                f1 = feval(e, max(lo, x - 1.5 * acc)); f2 = feval(e, min(hi, x + 1.5 * acc))
+                # Find_Root stops when the bracket is narrower than acc (or, at double resolution, after Max_Iterations on a bracket of one spacing):
+                # the returned point is within acc + 2 spacings of the quantile
+                sp = 2.0 * (math.nextafter(max(abs(lo), abs(hi)), math.inf) - max(abs(lo), abs(hi)))
+                f1 = feval(e, max(lo, x - 1.5 * acc - sp)); f2 = feval(e, min(hi, x + 1.5 * acc + sp))
                 if not (f1 - 1e-15 <= u <= f2 + 1e-15): out.append(("invt:root", f"cdf({x!r}) does not bracket the uniform {u!r} within the accuracy: cdf in [{f1!r},{f2!r}]"))
+                else:
+                    # the clause itself: |cdf(x) - xi| <= (slope bound of the cdf on the domain) * (acc + 2 spacings) + evaluation error of the cdf (1e-12 a priori)
+                    sb = slope_bound(e, lo, hi)
+                    if sb is not None and sb[2] == sb[2] and not math.isinf(sb[2]):
+                        bound = sb[2] * (acc + sp) + 1e-12; fx_ = feval(e, x)
+                        if fx_ == fx_ and abs(fx_ - u) > bound:
+                            out.append(("invt:quantile", f"Inverse_Transform_Sampling on [{lo!r},{hi!r}] returned x = {x!r} with cdf(x) = {fx_!r} for the uniform xi = {u!r} consumed: "
+                                        f"|cdf(x) - xi| = {abs(fx_ - u):.3e} exceeds {bound:.3e} = (slope bound {sb[2]:.3e}) * (1e-10 * width + 2 spacings) + 1e-12"))
         elif name in ("rej", "rej2"):
             d2 = name == "rej2"; per = 3 if d2 else 2
             if d2: xa, xb, ya, yb, zm, e = o[1:]
